@@ -414,8 +414,9 @@ var specC04 = vstat.Spec[c04Case]{
 	Rule: "two real transport controllers (two local identities) with fake transports on one bus; 2-5 fake links to 3 remote identities, to the other local identity, and self-dials; 3-12 operations est / lost / incoming stream with a valid header; " +
 		"20 standing EstablishLinkWithPeer requests covering src in {empty, L1, L2, a remote id} x dst in {R1,R2,R3,L1,L2}; " +
 		"oracle: after every operation each request yields exactly the model's links from src to dst (eventual, waited), everything ever yielded has the requested remote (and local) peer, self-links are closed and never yielded, every delivered stream reports its link's peers and the handler lookup carries (protocol, local, remote); non-trivial = live links to >=2 different remotes or a self-link",
-	Gen:   genC04,
-	Check: checkC04,
+	Gen:      genC04,
+	Check:    checkC04,
+	Inflight: true,
 }
 
 func TestC04(t *testing.T)       { vstat.Check(t, specC04) }
@@ -546,8 +547,9 @@ var specC07d = vstat.Spec[c07dCase]{
 	Property: "C07",
 	Rule: "dispatch through the real transport controller: a fake link delivers a scripted stream carrying header||payload (valid protocol ids of 7..5006 bytes, or an empty / invalid-UTF-8 id, zero / over-limit length, truncated or non-protobuf body); " +
 		"oracle: valid => exactly one handler lookup carrying (protocol id, link local peer, link remote peer) and the handler reads exactly the payload; invalid => stream closed, no lookup; every case is non-trivial",
-	Gen:   genC07d,
-	Check: checkC07d,
+	Gen:      genC07d,
+	Check:    checkC07d,
+	Inflight: true,
 }
 
 func TestC07Dispatch(t *testing.T)       { vstat.Check(t, specC07d) }
